@@ -16,36 +16,41 @@
               keeps these positions inside the line.
 
    The image content decides at which step the run-in completes and whether the framing code
-   matches; the model leaves both open (every n, match and mismatch), which is exactly "any image
-   content whatsoever".  The numbers of a configuration (scan steps, phase_shift, step, skip ...)
-   are the fields of the real configured object, dumped by harness/drv_rawdec.c.
+   matches; the model leaves both open (every step at which enough run-in bits can have been
+   clocked in, match and mismatch), which is exactly "any image content whatsoever".  The numbers of
+   a configuration (scan steps, phase_shift, step, skip ...) are the fields of the real configured
+   object, dumped by harness/drv_rawdec.c; the configuration is chosen in Init, so one TLC run
+   decides a whole list of configurations.
 
    Properties:  LineBound  - no access at or behind byte spl * bps of the line
-                ImageBound - no access behind the image the line is part of (`after` more bytes)
-                WriteBound - at most ceil(payload bits / 8) bytes are stored
-                ChannelOk  - the sampled channel lies inside the pixel                         *)
+                InnerBound - a line that is not the last row of an image never reads behind the next row
+                             (with LineBound for the last row: no access behind the image)
+                WriteBound - at most ceil(payload bits / 8) bytes are stored, and only when all bits were sampled
+                ChannelOk  - the sampled channel lies inside the pixel
+                Rightward  - within the bits phase the accesses only move right
+                ScanRight  - the search only moves right, one sample per step               *)
 EXTENDS Naturals, Sequences, TLC
 
-CONSTANT Cfgs          \* sequence of configuration records, see MC_SlicerBounds / generated module
+CONSTANT Cfgs          \* set of configuration records, see MC_SlicerBounds / generated module SlicerCfgs
 
 Window == 16           \* low-pass window, samples
 
-VARIABLES ci,          \* configuration under examination (0 = none yet)
+VARIABLES cf,          \* configuration under examination
           pc,          \* "idle", "pro" (low-pass prologue), "scan", "bits", "done"
           n,           \* scan step
           k,           \* data bit (framing code bits first)
           lo, hi,      \* lowest / highest byte offset (from the line start) read in this step
           w            \* bytes stored in the output buffer
-vars == <<ci, pc, n, k, lo, hi, w>>
+vars == <<cf, pc, n, k, lo, hi, w>>
 
-C == Cfgs[ci]
+C == cf
 
 \* ---------------------------------------------------------------- geometry
 ByteLo(c, s) == c.skip + s * c.bps                 \* first byte of the sampled channel of sample s
 ByteHi(c, s) == ByteLo(c, s) + c.wide              \* 16 bit pixels: the channel straddles both bytes
 Limit(c)     == c.spl * c.bps
-DataBits(c)  == c.frc_bits + (IF c.endian >= 2 THEN c.payload ELSE 8 * c.payload)
 PayloadBits(c) == IF c.endian >= 2 THEN c.payload ELSE 8 * c.payload
+DataBits(c)  == c.frc_bits + PayloadBits(c)
 Permitted(c) == (PayloadBits(c) + 7) \div 8
 \* octet routines store one byte per octet; bit routines one per 8 bits and the remaining bits at the end
 Stored(c)    == IF c.endian >= 2 THEN (c.payload \div 8) + 1 ELSE c.payload
@@ -58,62 +63,67 @@ BitFirst(c, m, j) == IF c.lp = 1 THEN m + 1 + BitPos(c, j) ELSE m + BitPos(c, j)
 BitLast(c, m, j)  == IF c.lp = 1 THEN BitFirst(c, m, j) + Window - 1 ELSE BitFirst(c, m, j) + 1
 
 \* ---------------------------------------------------------------- behaviour
-Init == ci = 0 /\ pc = "idle" /\ n = 0 /\ k = 0 /\ lo = 0 /\ hi = 0 /\ w = 0
+Init == cf \in Cfgs /\ pc = "idle" /\ n = 0 /\ k = 0 /\ lo = 0 /\ hi = 0 /\ w = 0
 
-Pick(c) ==
-  /\ pc = "idle" /\ ci' = c /\ n' = 0 /\ k' = 0 /\ w' = 0
-  /\ IF Cfgs[c].lp = 1
-     THEN pc' = "pro" /\ lo' = ByteLo(Cfgs[c], 0) /\ hi' = ByteHi(Cfgs[c], Window - 1)
-     ELSE IF Cfgs[c].scan > 0
-          THEN pc' = "scan" /\ lo' = ByteLo(Cfgs[c], 0) /\ hi' = ByteHi(Cfgs[c], ScanLast(Cfgs[c], 0))
+Started(c) ==          \* state after the call began on configuration c
+  /\ n' = 0 /\ k' = 0 /\ w' = 0
+  /\ IF c.lp = 1
+     THEN pc' = "pro" /\ lo' = ByteLo(c, 0) /\ hi' = ByteHi(c, Window - 1)
+     ELSE IF c.scan > 0
+          THEN pc' = "scan" /\ lo' = ByteLo(c, 0) /\ hi' = ByteHi(c, ScanLast(c, 0))
           ELSE pc' = "done" /\ lo' = 0 /\ hi' = 0
 
-FirstScan ==
+Start ==               \* the call: skip the sample offset, low-pass: sum up the first window
+  /\ pc = "idle" /\ cf' = cf /\ Started(cf)
+
+FirstScan ==           \* low-pass: the loop body runs before the step counter is tested
   /\ pc = "pro" /\ pc' = "scan" /\ n' = 0
   /\ lo' = ByteLo(C, 0) /\ hi' = ByteHi(C, ScanLast(C, 0))
-  /\ UNCHANGED <<ci, k, w>>
+  /\ UNCHANGED <<cf, k, w>>
 
 ScanStep ==            \* run-in not complete: next sample
   /\ pc = "scan" /\ n + 1 < C.scan
   /\ n' = n + 1 /\ lo' = ByteLo(C, ScanFirst(C, n + 1)) /\ hi' = ByteHi(C, ScanLast(C, n + 1))
-  /\ UNCHANGED <<ci, pc, k, w>>
+  /\ UNCHANGED <<cf, pc, k, w>>
 
 GiveUp ==              \* search limit reached
   /\ pc = "scan" /\ n + 1 >= C.scan
-  /\ pc' = "done" /\ UNCHANGED <<ci, n, k, lo, hi, w>>
+  /\ pc' = "done" /\ UNCHANGED <<cf, n, k, lo, hi, w>>
 
 CriFound ==            \* run-in complete in step n: first data bit
   /\ pc = "scan" /\ DataBits(C) > 0
   /\ pc' = "bits" /\ k' = 0
   /\ lo' = ByteLo(C, BitFirst(C, n, 0)) /\ hi' = ByteHi(C, BitLast(C, n, 0))
-  /\ UNCHANGED <<ci, n, w>>
+  /\ UNCHANGED <<cf, n, w>>
 
 NextBit ==
   /\ pc = "bits" /\ k + 1 < DataBits(C)
   /\ k' = k + 1
   /\ lo' = ByteLo(C, BitFirst(C, n, k + 1)) /\ hi' = ByteHi(C, BitLast(C, n, k + 1))
-  /\ UNCHANGED <<ci, pc, n, w>>
+  /\ UNCHANGED <<cf, pc, n, w>>
 
 FrcMismatch ==         \* framing code sampled, does not match: nothing stored
   /\ pc = "bits" /\ C.frc_bits > 0 /\ k = C.frc_bits - 1
-  /\ pc' = "done" /\ UNCHANGED <<ci, n, k, lo, hi, w>>
+  /\ pc' = "done" /\ UNCHANGED <<cf, n, k, lo, hi, w>>
 
 Deliver ==             \* all bits sampled: the payload is in the buffer
   /\ pc = "bits" /\ k + 1 = DataBits(C)
-  /\ pc' = "done" /\ w' = Stored(C) /\ UNCHANGED <<ci, n, k, lo, hi>>
+  /\ pc' = "done" /\ w' = Stored(C) /\ UNCHANGED <<cf, n, k, lo, hi>>
 
-Next == (\E c \in 1..Len(Cfgs) : Pick(c)) \/ FirstScan \/ ScanStep \/ GiveUp \/ CriFound \/ NextBit
-        \/ FrcMismatch \/ Deliver
+Next == Start \/ FirstScan \/ ScanStep \/ GiveUp \/ CriFound \/ NextBit \/ FrcMismatch \/ Deliver
 Spec == Init /\ [][Next]_vars
 
 \* ---------------------------------------------------------------- properties
 Reading == pc \in {"pro", "scan", "bits"}
-TypeOK == /\ ci \in 0..Len(Cfgs) /\ pc \in {"idle", "pro", "scan", "bits", "done"}
+TypeOK == /\ cf \in Cfgs /\ pc \in {"idle", "pro", "scan", "bits", "done"}
           /\ n \in Nat /\ k \in Nat /\ lo \in Nat /\ hi \in Nat /\ w \in Nat /\ lo <= hi
 LineBound  == Reading => hi < Limit(C)
-ImageBound == Reading => hi < Limit(C) + C.after
-WriteBound == ci > 0 => w <= Permitted(C)
-ChannelOk  == ci > 0 => (C.skip - C.soff * C.bps) + C.wide < C.bps
+\* a line that is not the last row of its image is followed by at least one more row of the same size:
+\* whatever it reads behind its own end must stay inside that row (the last row is LineBound itself)
+InnerBound == Reading => hi < 2 * Limit(C)
+WriteBound == w <= Permitted(C) /\ (w > 0 => pc = "done" /\ k + 1 = DataBits(C))
+ChannelOk  == (C.skip - C.soff * C.bps) + C.wide < C.bps
 \* within a line the accesses of the data bits move to the right only (so the last bit is the worst)
 Rightward  == [][(pc = "bits" /\ pc' = "bits") => hi' >= hi]_vars
+ScanRight  == [][(pc = "scan" /\ pc' = "scan") => (hi' = hi + C.bps /\ lo' = lo + C.bps)]_vars
 =============================================================================
